@@ -25,11 +25,12 @@ const (
 	KGlobber
 	KFileToParams
 	KCmdToParams
+	KMultiSub // harness-defined component (public API only): one sub-stream carrier per in-port, sent in port order
 )
 
 var kindNames = map[NodeKind]string{KFileSrc: "FileSource", KParamSrc: "ParamSource", KProc: "Process", KMapToTags: "MapToTags",
 	KStreamToSub: "StreamToSubStream", KFileCombinator: "FileCombinator", KParamCombinator: "ParamCombinator", KSelector: "IPSelectorSync",
-	KSplitter: "FileSplitter", KConcat: "Concatenator", KGlobber: "FileGlobber", KFileToParams: "FileToParamsReader", KCmdToParams: "CommandToParams"}
+	KSplitter: "FileSplitter", KConcat: "Concatenator", KGlobber: "FileGlobber", KFileToParams: "FileToParamsReader", KCmdToParams: "CommandToParams", KMultiSub: "MultiSubStream(harness)"}
 
 type Edge struct {
 	Node int
